@@ -105,6 +105,10 @@ def classify(rec):
     for tx, o in zip(rec["input"]["txs"], rec["obs"]):
         ks.append("tx:%s" % ("accepted" if o["ok"] else "rejected"))
         ks.append("tx_msgs=%d" % len(tx))
+        if any(m["t"] == "exec" for m in tx):
+            ks.append("tx-with-exec:%s" % ("accepted" if o["ok"] else "rejected"))
+        if len(tx) > 1:
+            ks.append("multi-msg-tx:%s" % ("accepted" if o["ok"] else "rejected"))
         for m in tx:
             if m["t"] == "exec":
                 ks.append("msg:exec")
